@@ -248,9 +248,13 @@ class Interp:
         except Unknown as ex:
             return Opaque(str(ex))
         fst.fn_key = fn.key
+        body = node.body
+        if _is_generator(node):
+            # a generator function consumed by a for loop / list(): the sequence of yielded values, collected like list.append
+            body = _generator_body(node)
         s.depth += 1
         try:
-            r = s.exec_block(node.body, fst)
+            r = s.exec_block(body, fst)
         finally:
             s.depth -= 1
         s.last_env[fn.key] = fst.env
@@ -758,6 +762,45 @@ class Interp:
 
 
 # ---------------------------------------------------------------------------- helpers
+_GEN_CACHE = {}
+
+
+def _is_generator(fn):
+    def walk(n):
+        for ch in ast.iter_child_nodes(n):
+            if isinstance(ch, (ast.FunctionDef, ast.Lambda, ast.ClassDef)): continue
+            if isinstance(ch, (ast.Yield, ast.YieldFrom)): return True
+            if walk(ch): return True
+        return False
+    return walk(fn)
+
+
+def _generator_body(fn):
+    """`yield v` -> `__yielded__.append(v)`, with `__yielded__ = []` first and `return __yielded__` last."""
+    if id(fn) in _GEN_CACHE: return _GEN_CACHE[id(fn)]
+    import copy as _copy
+
+    class T(ast.NodeTransformer):
+        def visit_FunctionDef(s_, n): return n if n is not fn_copy else s_.generic_visit(n)
+        def visit_Lambda(s_, n): return n
+        def visit_Expr(s_, n):
+            if isinstance(n.value, ast.Yield):
+                v = n.value.value if n.value.value is not None else ast.Constant(None)
+                return ast.copy_location(ast.Expr(ast.Call(ast.Attribute(ast.Name("__yielded__", ast.Load()), "append", ast.Load()), [v], [])), n)
+            return n
+        def visit_Return(s_, n):
+            return ast.copy_location(ast.Return(ast.Name("__yielded__", ast.Load())), n)
+    fn_copy = _copy.deepcopy(fn)
+    T().visit(fn_copy)
+    first = fn_copy.body[0] if fn_copy.body else fn
+    init = ast.copy_location(ast.Assign([ast.Name("__yielded__", ast.Store())], ast.List([], ast.Load())), first)
+    fin = ast.copy_location(ast.Return(ast.Name("__yielded__", ast.Load())), fn_copy.body[-1] if fn_copy.body else fn)
+    body = [init] + fn_copy.body + [fin]
+    for b in body: ast.fix_missing_locations(b)
+    _GEN_CACHE[id(fn)] = body
+    return body
+
+
 def _is_empty_dict(v):
     if v is None: return False
     if isinstance(v, ast.Dict) and not v.keys: return True
